@@ -276,6 +276,24 @@ func sigVariants() []sigVariant {
 			}, expect: "ok", ring: func() openpgp.EntityList { multiKeyArmored(); return openpgp.EntityList{multiKey} }})
 		}
 	}
+	// an armored key file that does not begin with the armor line (a blank line from a CI secret, comment lines, an indented
+	// first line): OpenPGP armor readers skip what precedes the header
+	for pi, prefix := range []string{"\n", "# exported by the release pipeline\n# do not edit\n\n", "   "} {
+		for _, v := range []struct{ name, format, method string }{{"debsign", "deb", ""}, {"dpkgsig", "deb", "dpkg-sig"}, {"rpm", "rpm", ""}} {
+			pi, prefix, v := pi, prefix, v
+			vs = append(vs, sigVariant{name: fmt.Sprintf("%s-armored-key-after-leading-text-%d", v.name, pi), format: v.format, tweak: func(info *nfpm.Info, _ *cbRecord) {
+				b, err := os.ReadFile(testdata("privkey_unprotected.asc"))
+				must(err)
+				fn := fmt.Sprintf("leading-text-%d.asc", pi)
+				must(os.WriteFile(fn, append([]byte(prefix), b...), 0o600))
+				if v.format == "deb" {
+					info.Deb.Signature.KeyFile, info.Deb.Signature.Method = fn, v.method
+				} else {
+					info.RPM.Signature.KeyFile = fn
+				}
+			}, expect: "ok"})
+		}
+	}
 	// an invalid type is invalid whoever signs: a callback without any key file
 	vs = append(vs, sigVariant{name: "debsign-callback-type-invalid", format: "deb", tweak: func(info *nfpm.Info, rec *cbRecord) {
 		info.Deb.Signature.Type = "bogus"
@@ -491,11 +509,11 @@ func sigVariants() []sigVariant {
 		kns := []string{"", "verif", "named.rsa.pub"}
 		if k.name == "rsa" {
 			// names in which ".pub" / ".rsa" are not an extension to be completed
-			kns = append(kns, "ops@example.pub", "key.rsa", "a.pub.rsa")
+			kns = append(kns, "ops@example.pub", "key.rsa", "a.pub.rsa", "pkg+release@example.com", "team key (2026)")
 		}
 		for _, kn := range kns {
 			kn := kn
-			vs = append(vs, sigVariant{name: "apk-" + k.name + "-keyname=" + kn, format: "apk", tweak: func(info *nfpm.Info, _ *cbRecord) {
+			vs = append(vs, sigVariant{name: "apk-" + k.name + "-keyname=" + strings.NewReplacer(" ", "_", "(", "_", ")", "_").Replace(kn), format: "apk", tweak: func(info *nfpm.Info, _ *cbRecord) {
 				info.APK.Signature.KeyFile, info.APK.Signature.KeyPassphrase, info.APK.Signature.KeyName = k.file, k.pass, kn
 			}, expect: "ok"})
 		}
